@@ -1,7 +1,8 @@
 (* Props/C05.v — rawdb: a crash never damages untouched flushed regions or the file layout.
    Statements only. *)
 From Anydb Require Import Common.Base Gen.Consts Rawdb.AMap Rawdb.Alloc Rawdb.Crash Rawdb.CrashFacts
-  Rawdb.CrashInv Rawdb.CrashSound Rawdb.CrashReopen Rawdb.CrashLibDefs Rawdb.CrashLib Rawdb.CrashExamples.
+  Rawdb.CrashInv Rawdb.CrashSound Rawdb.CrashReopen Rawdb.CrashLibDefs Rawdb.CrashLib Rawdb.CrashExamples
+  Rawdb.AllocEvents Rawdb.AllocDisciplinedAll.
 
 (* FULL statement (target): a trace accepted by the monitor is safe at every crash point (= every
    prefix) for every choice of page versions: the recovered regions are valid, pairwise disjoint
@@ -165,3 +166,44 @@ Theorem C05_monitor_rejects_prefix_behaviour :
                /\ match nth_error bad_trace_meta (N.to_nat k) with Some (CMeta 1 (Some _)) => True | _ => False end).
 Proof. exact (conj bad_trace_rejected_at_flush (conj bad_trace_rejected_at_data bad_trace_rejected_at_meta)). Qed.
 Print Assumptions C05_monitor_rejects_prefix_behaviour.
+
+(* ---- all histories of the allocator model (Rawdb/AllocEvents.v: the durability events each
+   operation emits; engine `crash` compares them token for token with the implementation's) ---- *)
+
+(* FULL statement (target): the monitor accepts the trace of EVERY history of crash operations
+   (everything but Reopen / SetMinRegions), for every outcome of approx_has_punchable_data *)
+Definition C05_model_disciplined_full : Prop :=
+  forall orcs min_len ops, forallb crash_op ops = true ->
+    snd (mon_run mon_init (trace_of_o orcs min_len ops)) = true.
+
+(* PARTIAL: proved for the histories in which every operation is one of create_region_if_needed,
+   truncate, rename, remove_region, drop of a handle, set_min_len, Database::flush (every
+   outcome), or a refused write / retain_regions / Region::flush / compact (`covered_run`,
+   Rawdb/AllocDisciplinedAll.v).  Missing: the successful paths of the write family,
+   retain_regions, Region::flush and compact (the generic lemmas ms_sound / MS_slot_update /
+   cpl_after_sync they need are proved; their instantiation is not). *)
+Theorem C05_model_disciplined_partial :
+  forall orcs min_len ops, covered_run (init min_len) ops ->
+    snd (mon_run mon_init (trace_of_o orcs min_len ops)) = true.
+Proof. exact C05_model_disciplined_partial_proof. Qed.
+Print Assumptions C05_model_disciplined_partial.
+
+(* with C05_os: every crash point of such a history, every choice of page versions *)
+Theorem C05_all_histories_partial :
+  forall orcs min_len ops, covered_run (init min_len) ops ->
+  forall t1 t2, trace_of_o orcs min_len ops = t1 ++ t2 ->
+    let m := fst (mon_run mon_init t1) in
+    forall sigma img, os_slots m sigma -> os_data m img ->
+      pairwise_disjoint (recovered m sigma) /\ inside_file m (recovered m sigma)
+      /\ match m_flushed m with
+         | Some (fl, fmem) =>
+             forall i w, assoc_get i fl = Some w -> mem_in (sr_id w) (m_touched m) = false ->
+               sigma i = Some w /\ forall a, sr_start w <= a < sr_start w + sr_len w -> img a = fmem a
+         | None => True
+         end.
+Proof. exact C05_all_histories_partial_proof. Qed.
+Print Assumptions C05_all_histories_partial.
+
+Theorem C05_model_disciplined_example : covered_run (init 0) ex_history.
+Proof. exact ex_history_covered. Qed.
+Print Assumptions C05_model_disciplined_example.
